@@ -753,11 +753,15 @@ pub fn generate(check: &str, tier: &str, seed: u64) -> Scenario {
             let mut clients = Vec::new();
             for _ in 0..nclients {
                 let n = r.range(3, 12) as usize;
-                let window = *cr.pick(&[1usize, 1, 2, 3]);
+                // a third of the clients pipeline deeply and mostly read one key: their replies
+                // must respect the connection's own order although the requests overlap in time
+                let deep = cr.one_in(3);
+                let window = if deep { *cr.pick(&[4usize, 6, 8]) } else { *cr.pick(&[1usize, 1, 2, 3]) };
+                let hot = r.usize_below(nkeys);
                 let mut steps = Vec::new();
                 for _ in 0..n {
-                    let k = r.usize_below(nkeys);
-                    let req = match r.below(10) {
+                    let k = if deep && !r.one_in(4) { hot } else { r.usize_below(nkeys) };
+                    let req = match if deep { 4 + r.below(5) } else { r.below(10) } {
                         0..=3 => {
                             tag += 1;
                             Req::Set(k, Val { tag, len: *r.pick(&[8, 9, 40, 8200]) })
